@@ -400,7 +400,29 @@ class Lowerer:
         if not body:
             raise Unsupported(f"{pyname}: no body")
         self.pre = []
-        stmts = self.block(body[0])
+        inits = []
+        for c in decl.get("inner", []):
+            if c.get("kind") == "CXXCtorInitializer":
+                # constructor member initialiser: self.<member> = <initialiser>
+                member = (c.get("anyInit") or {}).get("name")
+                ini = [x for x in c.get("inner", []) if x]
+                if member is None or len(ini) != 1:
+                    raise Unsupported("constructor initialiser (base class / delegating)")
+                e = ini[0]
+                if e.get("kind") == "ParenListExpr":
+                    sub = [x for x in e.get("inner", []) if x]
+                    if not sub:
+                        val = ast.Call(ast.Name("default_construct", ast.Load()), [ast.Constant((c.get("anyInit") or {}).get("type", {}).get("qualType", ""))], [])
+                    elif len(sub) == 1:
+                        val = self.expr(sub[0])
+                    else:
+                        raise Unsupported("constructor initialiser with several arguments")
+                else:
+                    val = self.expr(e)
+                inits.extend(self.pre)
+                self.pre = []
+                inits.append(ast.Assign([ast.Attribute(ast.Name("self", ast.Load()), member, ast.Store())], val))
+        stmts = inits + self.block(body[0])
         args = ([ast.arg("self")] if is_method else []) + [ast.arg(p) for p in params]
         fd = ast.FunctionDef(pyname, ast.arguments([], args, None, [], [], None, []), stmts or [ast.Pass()], [], None, None)
         if hasattr(fd, "type_params"):
